@@ -319,7 +319,8 @@ def check(tier, seed):
     res = bounded.run_native("c16_phases.py", ["--n", str(n), "--seed", str(seed)])
     lines, ev, err = bounded.report("C16", "phases and algebraic loops on whole topologies", res, "c16_phases.py")
     extra = dict(bounded=[dict(ev, bound=f"{n} random directed graphs (1-5 real nodes, random skip flags, self loops, one set_delay): a node behind an un-skipped cycle raises RecursionError "
-                                         "'Algebraic loop detected', every other phase = longest expected-delay path (own DFS oracle), before and after the set_delay")],
+                                         "'Algebraic loop detected', every other phase = longest expected-delay path (own DFS oracle), before and after the set_delay; explicit expected delays (also exactly 0.0) next to non-degenerate distributions, "
+                                         "shadow input names; on acyclic cases the nodes rebuilt from their infos have equal connections and phases")],
                  assumptions=["unbounded recursion of the pure phase property ends in CPython's RecursionError (recursion rule of the executor; confirmed natively by the bounded stand-in)",
                               "on a DAG the Bellman equation's unique solution is the longest path (induction, written; cross-checked by the bounded stand-in)"])
     code = check_property("C16", UNITS, tier, seed, extra=extra)
